@@ -59,7 +59,7 @@ CLAUSES = {
     "base64 payload encoding is invertible": "b64_roundtrip",
 }
 PARALLEL = True
-CASE_TIMEOUT = 30
+CASE_TIMEOUT = 60
 LEVEL_NOTE = "HMAC is a parameter; 'unforgeable' is stated as decode_sound + injectivity of the signed encoding"
 
 DAY = 86400
@@ -496,6 +496,7 @@ def _prim_case(rng):
 
 def gen_cases(rng, tier):
     n = {"quick": 2600, "thorough": 45000, "search": 4000}[tier]
+    _web()      # import tornado.web in the parent, before the workers are forked
     if tier in ("quick", "thorough"):
         yield from _scan_cases(rng, tier)
         for how in ("v1name", "v1ts"):
